@@ -490,6 +490,7 @@ def find_function(relpath, qual):
             raise KeyError(f"{relpath}::{qual}")
         node = found
     seg = ast.get_source_segment(src, node)
+    SHA_SEEN[f"{relpath}::{qual}"] = hashlib.sha256(seg.encode()).hexdigest()[:16]
     if isinstance(node, ast.FunctionDef):
         node = canonical_locals(node, f"{relpath}::{qual}")
         node = statement_numbering(node)
@@ -504,6 +505,7 @@ def find_function(relpath, qual):
 
 # ----------------------------------------------------------------------------- names of locals (sidecar robustness)
 LOCALS_SEEN = {}
+SHA_SEEN = {}
 _LOCALS_TABLE = None
 
 
